@@ -704,13 +704,16 @@ type jsv struct {
 	keys  [][]uint16
 	k     int // toJSON family
 	inner *jsv
-	isArr bool   // cyc: the ancestor referred to is an array
-	name  string // variable holding the container once built
-	extra bool   // obj: also has an inherited enumerable and an own non-enumerable property (both invisible to JSON.stringify)
-	shape string // obj: "" plain, "args" an arguments object (first argc members are its indices), "arrproto"/"arrsub" an Object whose prototype is an array
-	argc  int    // args: number of arguments passed; members "0".."argc-1" missing from keys were deleted
-	junk  bool   // arr / wstr: the object also carries named properties that JSON.stringify must ignore
-	ovr   int    // wnum/wstr/wbool: how valueOf/toString is overridden; f/s/b hold what ToNumber/ToString(value) then gives, f0/s0 the internal value
+	isArr bool       // cyc: the ancestor referred to is an array
+	name  string     // variable holding the container once built
+	extra bool       // obj: also has an inherited enumerable and an own non-enumerable property (both invisible to JSON.stringify)
+	shape string     // obj: "" plain, "args" an arguments object (first argc members are its indices), "arrproto"/"arrsub" an Object whose prototype is an array
+	argc  int        // args: number of arguments passed; members "0".."argc-1" missing from keys were deleted
+	junk  bool       // arr / wstr: the object also carries named properties that JSON.stringify must ignore
+	hkeys [][]uint16 // obj: members [[Get]] finds beyond the own enumerable ones ...
+	hvals []*jsv
+	hkind []int // ... 0 own non-enumerable, 1 on the prototype, 2 on the prototype's prototype
+	ovr   int   // wnum/wstr/wbool: how valueOf/toString is overridden; f/s/b hold what ToNumber/ToString(value) then gives, f0/s0 the internal value
 	f0    float64
 	s0    []uint16
 }
@@ -777,6 +780,17 @@ func (v *jsv) coq() string {
 		it := make([]string, len(v.items))
 		for i, x := range v.items {
 			it[i] = "(" + Cunits(v.keys[i]) + ", " + x.coq() + ")"
+		}
+		if len(v.hkeys) > 0 {
+			var h []string
+			for kind := 0; kind <= 2; kind++ { // the order [[Get]] searches in
+				for i, k := range v.hkeys {
+					if v.hkind[i] == kind {
+						h = append(h, "("+Cunits(k)+", "+v.hvals[i].coq()+")")
+					}
+				}
+			}
+			return "(ObjH " + Clist(it) + " " + Clist(h) + ")"
 		}
 		return "(Obj " + Clist(it) + ")"
 	case "toj":
@@ -1012,6 +1026,34 @@ func (b *builder) build(v *jsv) string {
 			b.stmts = append(b.stmts, "var "+name+"=Object.create([9,8,7]);")
 		} else if v.shape == "arrsub" {
 			b.stmts = append(b.stmts, "var "+name+"=new (function(){var A=function(){};A.prototype=[5,6];return A}())();")
+		} else if len(v.hkeys) > 0 {
+			gp, pr := name+"g", name+"p"
+			b.stmts = append(b.stmts, "var "+gp+"={};")
+			for i, k := range v.hkeys {
+				if v.hkind[i] == 2 {
+					b.stmts = append(b.stmts, fmt.Sprintf("%s[%s]=%s;", gp, jsStrExpr(k), b.build(v.hvals[i])))
+				}
+			}
+			b.stmts = append(b.stmts, "var "+pr+"=Object.create("+gp+");")
+			for i, k := range v.hkeys {
+				if v.hkind[i] == 1 {
+					b.stmts = append(b.stmts, fmt.Sprintf("%s[%s]=%s;", pr, jsStrExpr(k), b.build(v.hvals[i])))
+				}
+			}
+			if b.g.r.Intn(2) == 0 {
+				b.stmts = append(b.stmts, "var "+name+"=Object.create("+pr+");")
+			} else { // the same chain through a constructor
+				b.stmts = append(b.stmts, "var "+name+"=new (function(){var F=function(){};F.prototype="+pr+";return F}())();")
+			}
+			for i, k := range v.hkeys {
+				ownToo := false // one property cannot be both: the enumerable own member of that name is the property
+				for _, ok := range v.keys {
+					ownToo = ownToo || string(utf16.Decode(ok)) == string(utf16.Decode(k))
+				}
+				if v.hkind[i] == 0 && !ownToo {
+					b.stmts = append(b.stmts, fmt.Sprintf("Object.defineProperty(%s,%s,{value:%s,enumerable:false,writable:true,configurable:true});", name, jsStrExpr(k), b.build(v.hvals[i])))
+				}
+			}
 		} else if v.extra {
 			b.stmts = append(b.stmts, "var "+name+"=Object.create({\"inh!\":1});Object.defineProperty("+name+",\"hid!\",{value:2,enumerable:false});")
 		} else {
@@ -1493,15 +1535,24 @@ func (g *gen) casePlist() {
 			if r.Intn(2) == 0 {
 				continue
 			}
-			v.keys = append(v.keys, ascii(k))
+			var x *jsv
 			switch {
 			case d > 0 && r.Intn(4) == 0:
-				v.items = append(v.items, mk(d-1))
+				x = mk(d - 1)
 			case d > 0 && r.Intn(6) == 0:
-				v.items = append(v.items, arr(mk(d-1), num(1)))
+				x = arr(mk(d-1), num(1))
 			default:
-				v.items = append(v.items, num(float64(r.Intn(9))))
+				x = num(float64(r.Intn(9)))
 			}
+			if r.Intn(4) == 0 { // not an own enumerable member: only a property list can reach it
+				v.hkeys, v.hvals, v.hkind = append(v.hkeys, ascii(k)), append(v.hvals, x), append(v.hkind, r.Intn(3))
+				if r.Intn(3) > 0 {
+					continue
+				}
+				x = num(float64(10 + r.Intn(9))) // and an own member of the same name shadows it
+			}
+			v.keys = append(v.keys, ascii(k))
+			v.items = append(v.items, x)
 		}
 		return v
 	}
@@ -1539,6 +1590,56 @@ func (g *gen) casePlist() {
 		spJS, spCoq = g.space()
 	}
 	g.caseStringify(v, "["+strings.Join(js, ",")+"]", "(RList "+Clist(cq)+")", spJS, spCoq, "stringify-plist")
+}
+
+// property lists over objects whose listed names live on the prototype chain or are not enumerable
+func (g *gen) sweepInherited() {
+	hid := func(kind int, own []interface{}, hidden ...interface{}) *jsv {
+		v := obj(own...)
+		for i := 0; i < len(hidden); i += 2 {
+			v.hkeys = append(v.hkeys, ascii(hidden[i].(string)))
+			v.hvals = append(v.hvals, hidden[i+1].(*jsv))
+			k := kind
+			if kind == 3 { // one of each
+				k = (i / 2) % 3
+			}
+			v.hkind = append(v.hkind, k)
+		}
+		return v
+	}
+	own := func(kv ...interface{}) []interface{} { return kv }
+	lists := []struct{ js, coq string }{
+		{`["a"]`, `(RList [PStr [97]])`},
+		{`["b","a"]`, `(RList [PStr [98]; PStr [97]])`},
+		{`["a","b","c","zz"]`, `(RList [PStr [97]; PStr [98]; PStr [99]; PStr [122; 122]])`},
+		{`[new String("a"),1]`, `(RList [PWStr [97]; PNum 1])`},
+		{`[]`, `(RList [])`},
+	}
+	for kind := 0; kind <= 3; kind++ {
+		vals := []*jsv{
+			hid(kind, own(), "a", num(1)),
+			hid(kind, own("b", num(2)), "a", num(1)),
+			hid(kind, own("a", num(5)), "a", num(1), "b", num(2)), // own shadows inherited
+			hid(kind, own("c", num(3)), "a", hid(kind, own("b", num(7)), "a", str("deep")), "b", arr(num(1), hid(kind, own(), "a", num(9)))),
+			hid(kind, own("b", &jsv{kind: "undef"}), "a", &jsv{kind: "undef"}, "c", &jsv{kind: "fun"}, "1", &jsv{kind: "null"}),
+			hid(kind, own(), "a", &jsv{kind: "toj", k: 1, inner: &jsv{kind: "null"}}, "b", &jsv{kind: "wnum", f: 4}, "c", &jsv{kind: "date", f: 0}),
+			arr(hid(kind, own("b", num(1)), "a", str("x")), hid(kind, own(), "b", num(2)), obj("a", hid(kind, own(), "a", num(3)))),
+			obj("a", hid(kind, own(), "a", num(1), "1", num(2)), "zz", hid(kind, own("zz", num(0)), "b", &jsv{kind: "bool", b: true})),
+		}
+		for i, v := range vals {
+			l := lists[(i+kind)%len(lists)]
+			g.caseStringify(v, l.js, l.coq, "undefined", "SNone", "plist-inherited")
+			l = lists[(i+kind+1)%len(lists)]
+			g.caseStringify(v, l.js, l.coq, "1", "(SNum "+Cdouble(1)+")", "plist-inherited")
+			if i%2 == 0 { // without a list, and under a replacer function, the hidden members stay hidden
+				g.caseStringify(v, "undefined", "RNone", "undefined", "SNone", "plist-inherited")
+				g.caseStringify(v, replacers[10], "(RFun 10)", "undefined", "SNone", "plist-inherited")
+			}
+			if i%4 == 1 {
+				g.caseMarshal(v)
+			}
+		}
+	}
 }
 
 // a valid text followed or preceded by one token of every class: only JSON white space may stand there
@@ -1786,6 +1887,7 @@ func runC11(env *Env) {
 	g.caseStringify(num(1152921504606846976), "undefined", "RNone", "undefined", "SNone", "pinned")
 	g.sweepSpace()
 	g.sweepWrappers()
+	g.sweepInherited()
 	g.sweepRevivers()
 	g.sweepAround()
 	g.sweepClasses()
